@@ -21,14 +21,14 @@ def run(eng):
     res = img._valid_size(MODE, None, (fc, fl_))
     return dict(ow=ow, oh=oh, fc=fc, fl=fl_, cr=pr2, res=res)
 
-for MODE in (Size.FIT,):
+for MODE in (Size.FIT, Size.AUTO, Size.FIT_TO_WIDTH, Size.ORIGINAL):
     ENG.reset_stats(); t = time.time()
     results = ENG.explore(run)
     print(MODE, "paths", len(results), "queries", ENG.queries, round(time.time()-t, 2))
     for pc, r, exc in results:
         if exc: print("  EXC", repr(exc)); continue
         w, h = r["res"]; w = core.lift(w); h = core.lift(h)
-        s = z3.Solver(); s.set("timeout", 20000); s.add(*pc)
+        s = z3.Solver(); s.set("timeout", 15000); s.add(*pc)
         claim = z3.And(w.e >= 1, h.e >= 1)
         if MODE in (Size.FIT, Size.AUTO):
             claim = z3.And(claim, w.e <= r["fc"].e, h.e <= r["fl"].e)
@@ -39,5 +39,7 @@ for MODE in (Size.FIT,):
         for nm, cl in (("pos", z3.And(w.e >= 1, h.e >= 1)), ("within", z3.And(w.e <= r["fc"].e, h.e <= r["fl"].e)), ("touch", z3.Or(w.e == r["fc"].e, h.e == r["fl"].e))):
             s.push(); s.add(z3.Not(cl)); t1 = time.time(); rr = s.check(); s.pop()
             print("  path", len(pc), nm, rr, round(time.time()-t1, 2))
+            if str(rr) == "unknown" and nm == "within":
+                print("   PC:", [str(z3.simplify(c))[:150] for c in pc if "fl" not in str(c)[:3] or True][-14:])
         if str(rr) == "sat":
             m = s.model(); print("   cex", {k: m.eval(v.e) for k, v in r.items() if k != "res"}, m.eval(w.e), m.eval(h.e))
